@@ -4,6 +4,34 @@ From V Require Import lib.Tree gen.Gen_functions model.C18 proofs.C18.
 Open Scope list_scope.
 Open Scope Q_scope.
 
+(* ------------------------------------------------------------------------------------ *)
+(* the sector routine as it was before /repo abf9f57 (kept: it is correct in exact arithmetic, *)
+(* C18_sector.v: sector_core_v1_spec; its defect was the float comparison only)             *)
+(* ------------------------------------------------------------------------------------ *)
+Definition adiff (p : Q * Q) : Q := fold180 (Qabs (fst p - snd p)).
+(* np.argmax: the first position holding the maximum; we return the element there *)
+Fixpoint first_max {A} (f : A -> Q) (best : A) (l : list A) : A :=
+  match l with
+  | [] => best
+  | x :: t => if Qltb (f best) (f x) then first_max f x t else first_max f best t
+  end.
+Definition count_nz (l : list Q) : nat := length (filter (fun x => negb (Qeq_bool x 0)) l).
+Definition sector_core_v1 (d : list Q) : Q :=
+  match d with
+  | [] => 0
+  | d0 :: _ =>
+    let rolled := rollq d in
+    let pairs := combine d rolled in
+    let diffs := map adiff pairs in
+    let best := first_max adiff (d0, hd d0 rolled) pairs in        (* pair at argmax *)
+    let fba := fst best in                                           (* first_bounding_angle *)
+    let rotated := map (fun r => qmod360 (r - fba)) rolled in
+    let second := qmod360 (snd best - fba) in                        (* second_bound_angle_rotated *)
+    let maxrot := qmax_list rotated in
+    let result := if Qeq_bool maxrot second then second else 360 - second in
+    if (count_nz diffs <=? 2)%nat then qmax_list diffs else result
+  end.
+
 (* ---- floor ---- *)
 Lemma zq_inj_le a b : (a <= b)%Z -> zq a <= zq b.
 Proof. unfold zq. rewrite <- Zle_Qle. tauto. Qed.
@@ -150,15 +178,11 @@ Proof. destruct d as [|a t]; simpl; auto. intro H. apply in_app_or in H. destruc
 
 Lemma sector_core_nonneg d : in_range d -> 0 <= sector_core d.
 Proof.
-  intro R. unfold sector_core. destruct d as [|d0 t]; [lra|].
-  set (d := d0 :: t) in *. set (pairs := combine d (rollq d)).
-  destruct (count_nz (map adiff pairs) <=? 2)%nat.
-  - apply qmax_list_ge0.
-    + unfold pairs, d. simpl. destruct t; simpl; discriminate.
-    + intros x Hx. apply in_map_iff in Hx. destruct Hx as [[a b] [<- Hp]]. apply in_combine_both in Hp. destruct Hp as [Ha Hb].
-      apply rollq_in in Hb. apply adiff_range; apply R; assumption.
-  - match goal with |- context [qmod360 ?e] => pose proof (qmod360_range e) as Hr end.
-    match goal with |- 0 <= (if ?c then _ else _) => destruct c end; lra.
+  intros _. unfold sector_core. destruct d as [|d0 t]; [lra|].
+  set (gaps := map (fun p : Q * Q => qmod360 (snd p - fst p)) (combine (d0 :: t) (rollq (d0 :: t)))).
+  assert (N : gaps <> []) by (unfold gaps; simpl; destruct t; simpl; discriminate).
+  destruct (qmax_list_spec gaps N) as [I _]. unfold gaps in I at 2. apply in_map_iff in I. destruct I as [p [E _]].
+  pose proof (qmod360_range (snd p - fst p)) as R. rewrite E in R. destruct (Qeq_bool (qmax_list gaps) 0); lra.
 Qed.
 
 Lemma sector_x_range l : sector_x false l = XNaN \/ exists r, sector_x false l = XFin r /\ 0 <= r.
